@@ -626,6 +626,8 @@ class Dataset(AbstractDataset, dict, OpMixin, GetSetDelAttrMixin):
         if keepdims:
             if newaxis is None:
                 newaxis = Axis(func(self.axes[name].values, axis=0, **kwargs), name)
+                if keepattrs:
+                    newaxis.attrs.update(self.axes[name].attrs) # like DimArray.take_axis
             newaxes = [ax.copy() if ax.name != name else newaxis for ax in self.axes]
         else:
             newaxes = [ax.copy() for ax in self.axes if ax.name != name ]
